@@ -30,7 +30,7 @@ fn walk_body(b: &mut (Vec<Stmt>, Option<Box<Expr>>), f: &mut dyn FnMut(&mut Expr
     }
 }
 
-fn walk_expr(e: &mut Expr, f: &mut dyn FnMut(&mut Expr)) {
+pub fn walk_expr(e: &mut Expr, f: &mut dyn FnMut(&mut Expr)) {
     f(e);
     match e {
         Expr::Lit(_) | Expr::Var(_) | Expr::Witness(_) | Expr::Param(_) | Expr::None => {}
